@@ -25,6 +25,14 @@ type Val struct {
 	L    []Sc
 	Loc  *Loc
 	Clos *Clos
+	// Alts: a function value that is one of several closures known at encode time, depending on the path taken
+	// (phi of closures): calls through it are encoded as a case split
+	Alts []ClosAlt
+}
+
+type ClosAlt struct {
+	Cond string
+	Clos *Clos
 }
 
 type Clos struct {
@@ -40,6 +48,9 @@ type Loc struct {
 	Idx  string // 'S' only
 	Path string // leaf path prefix inside the container
 	T    types.Type
+	// Nullable: the pointer this location stands for may be nil (Ref == 0): the merge of `nil` with interior pointers
+	// of one shape at a phi. A plain interior pointer (&x.f, &a[i]) is never nil.
+	Nullable bool
 }
 
 type Leaf struct {
